@@ -54,7 +54,7 @@ pub fn profile() -> Profile {
         w_merge: 3,
         w_send: 8,
         w_deliver: 8,
-        mut_classes: vec![FieldExtreme, DataLeb, DataLeb, ColumnSplice, SpecMutate, BitFlip, ByteSet, Utf8Poison],
+        mut_classes: vec![FieldExtreme, DataLeb, DataLeb, ColumnSplice, SpecMutate, BitFlip, ByteSet, Utf8Poison, Coherent, Coherent],
         fix_checksum_permille: 1000,
         partial_ignore_permille: 200,
         unverified_permille: 0,
